@@ -51,7 +51,7 @@ inductive Err
   | name         -- unbound name (`NameError`; `TypeError` when `__builtins__` is `None`)
   | zerodiv      -- `ZeroDivisionError`
   | unsupported  -- valid or invalid Python outside the integer fragment of `evalInt`
-  | fuel         -- never produced (fuel of the expression parser is sufficient)
+  | fuel         -- parser fuel exhausted: not expected (3·tokens+4 bounds every call path); would show as a correspondence break
   | arity        -- number of arguments differs from the number of declared parameters
 deriving Repr, DecidableEq
 
